@@ -30,6 +30,9 @@ WEIGHTS = {
     "detach": [("add", 18), ("delete", 8), ("flush", 10), ("commit", 8), ("rollback", 6), ("expunge", 10),
                ("expunge_all", 4), ("close", 5), ("mt", 8), ("mtd", 6), ("merge", 8), ("get", 5), ("new", 3),
                ("setpk", 3)],
+    # conflicting primary keys, phantom rows, pk changes: many failing flushes (C32)
+    "conflict": [("add", 22), ("delete", 8), ("flush", 14), ("commit", 10), ("rollback", 9), ("setpk", 10), ("mtd", 5),
+                 ("new", 8), ("merge", 3), ("get", 3), ("expunge", 3), ("nbegin", 2), ("nrollback", 2), ("mt", 2), ("expire", 2)],
     # loading traffic for C34: queries, get, refresh, merge, pk changes, expunge/re-add
     "identity": [("add", 14), ("delete", 5), ("flush", 8), ("commit", 8), ("rollback", 5), ("expunge", 7),
                  ("merge", 8), ("get", 12), ("query", 10), ("refresh", 5), ("setpk", 8), ("expire", 5), ("mt", 2),
@@ -79,7 +82,8 @@ def compact(case):
 
     eoc, ops, recs = case
     strs = [L.fmt_record(r) if r is not None else "bad-oid" for r in recs]
-    return eoc, ops, strs, {"c35": O.check_case(eoc, ops, recs), "c34": O.check_case_c34(eoc, ops, recs)}
+    return eoc, ops, strs, {"c35": O.check_case(eoc, ops, recs), "c34": O.check_case_c34(eoc, ops, recs),
+                            "c32": O.check_case_c32(eoc, ops, recs)}
 
 
 # exhaustive small scope: two instances a (pk 1) and b (pk 1 or 2)
